@@ -1,5 +1,6 @@
 (* C13 - depth normalisation reorients coordinates and data together, idempotently. *)
 From Coq Require Import ZArith List Bool.
+From EV Require Import Proofs.GuessP.
 From EV Require Import Model.Depth Proofs.DepthP.
 Import ListNotations.
 Open Scope Z_scope.
@@ -49,3 +50,24 @@ Theorem C13_defined : forall (A : Type) pd dts c (rws : list A),
   (2 <= length (vals c))%nat -> exists d', normalize pd dts (single c rws) = Some d'.
 Proof. exact @normalize_single_defined. Qed.
 Print Assumptions C13_defined.
+
+(* ---- an axis without a `positive` attribute: the direction is guessed from the values *)
+(* all depths written as positive numbers: positive down; none above zero: positive up *)
+Theorem C13_guess_one_sided : forall v,
+  (v <> [] -> Forall (fun x => 0 < x) v -> guess_down v = true) /\ (Forall (fun x => x <= 0) v -> guess_down v = false).
+Proof. intros v. split; [apply guess_all_positive|apply guess_none_positive]. Qed.
+Print Assumptions C13_guess_one_sided.
+
+(* exactly the count of values above zero decides; the order of the levels and the unit play no part *)
+Theorem C13_guess_majority : forall v,
+  (guess_down v = true <-> (length v < 2 * length (filter (fun x => (0 <? x)%Z) v))%nat) /\
+  (forall w, Permutation.Permutation v w -> guess_down v = guess_down w) /\
+  (forall k, 0 < k -> guess_down (map (Z.mul k) v) = guess_down v).
+Proof. intros v. split; [apply guess_is_majority|split; [apply guess_permutation|intros k Hk; now apply guess_scaled]]. Qed.
+Print Assumptions C13_guess_majority.
+
+(* ... and not their mean *)
+Theorem C13_guess_not_the_mean_refuted :
+  (exists v, fold_right Z.add 0 v < 0 /\ guess_down v = true) /\ (exists v, 0 < fold_right Z.add 0 v /\ guess_down v = false).
+Proof. exact guess_not_the_mean. Qed.
+Print Assumptions C13_guess_not_the_mean_refuted.
